@@ -22,6 +22,14 @@ def M(id_, file, old, new, props):
 
 
 MUTANTS = [
+    M('reader-one-layer-short', NN,
+      "                np.array(group['intercepts_{}_{}'.format(k, i)]) for k in\n"
+      "                range(network.n_layers_ - 1)]",
+      "                np.array(group['intercepts_{}_{}'.format(k, i)]) for k in\n"
+      "                range(network.n_layers_ - 2)]", 'C09'),
+    M('phase-shift-directions-swapped', PS,
+      "points_t[:, dim] = (points_t[:, dim] + (-1 if inverse else +1) *",
+      "points_t[:, dim] = (points_t[:, dim] - (-1 if inverse else +1) *", 'C16'),
     M('prior-survival-of-u', PR, "dist.isf(1 - points[..., i])", "dist.isf(points[..., i])", 'C15'),
     M('prior-neighbour-coordinate', PR, "dist.isf(1 - points[..., i])",
       "dist.isf(1 - points[..., i - 1])", 'C15'),
